@@ -525,10 +525,27 @@ func ruleX4(p *Program, r *Reporter) {
 	}
 	// the per-operation loop precedes the commit-time checks
 	applied := false
+	reachesApply := func(g *ssa.Function) bool {
+		if g == nil || pkgOf(g) != pkgOf(fn) || len(g.Blocks) == 0 {
+			return false
+		}
+		for _, h := range p.Reach(g) {
+			for _, hb := range h.Blocks {
+				for _, hi := range hb.Instrs {
+					if hc, ok := hi.(*ssa.Call); ok {
+						if hs := hc.Call.StaticCallee(); hs != nil && hs.Name() == "ApplyCacheUpdate" {
+							return true
+						}
+					}
+				}
+			}
+		}
+		return false
+	}
 	for _, b := range fn.Blocks {
 		for _, ins := range b.Instrs {
 			if c, ok := ins.(*ssa.Call); ok {
-				if sc := c.Call.StaticCallee(); sc != nil && sc.Name() == "ApplyCacheUpdate" {
+				if sc := c.Call.StaticCallee(); sc != nil && (sc.Name() == "ApplyCacheUpdate" || (sc != fn && sc.Name() != "checkIndexes" && sc.Name() != "applyReferenceUpdates" && reachesApply(sc) && loopHeaderOf(b) != nil)) {
 					applied = true
 					fc := newFlowCtx(fn)
 					okk := !fc.canFollow(calls[2], c)
